@@ -177,4 +177,59 @@ pub fn c15_cases(_rng: &mut Rng, tier: &str, out: &mut Out) {
             let _ = std::fs::remove_file(dir.join(format!("c15_{layers}_{t}_{}.mla", u8::from(single))));
         }
     }
+    // file ids are opaque u64 in the format: an archive whose only file carries a LARGE id (6 000 000, 2^40) is
+    // linearly extracted and repaired within the same memory as with id 0 (the tables are per file, not per id)
+    for (which, id) in [(0usize, 0u64), (1, 6_000_000), (2, 1 << 40)] {
+        let mut cfg = ArchiveWriterConfig::new();
+        cfg.set_layers(layers_of(0));
+        let mut w = ArchiveWriter::from_config(Vec::new(), cfg).unwrap();
+        w.add_file("only", 4096, vec![7u8; 4096].as_slice()).unwrap();
+        w.finalize().unwrap();
+        let bytes = crate::repair::remap_ids(&w.into_raw(), 9, |_| id).unwrap();
+        let mut msg = None;
+        let mut meta = json!({"id": id});
+        for op in ["linear", "repair"] {
+            let b2 = bytes.clone();
+            let (r, peak) = measure(move || -> Result<u64, String> {
+                if op == "linear" {
+                    let mut rd = ArchiveReader::from_config(io::Cursor::new(b2.as_slice()), ArchiveReaderConfig::new()).map_err(|e| format!("{e:?}"))?;
+                    let name = "only".to_string();
+                    let mut export: HashMap<&String, CountSink> = HashMap::new();
+                    export.insert(&name, CountSink(0));
+                    linear_extract(&mut rd, &mut export).map_err(|e| format!("{e:?}"))?;
+                    Ok(export.values().map(|s| s.0).sum())
+                } else {
+                    let mut fsr = ArchiveFailSafeReader::from_config(io::Cursor::new(b2.as_slice()), ArchiveReaderConfig::new()).map_err(|e| format!("{e:?}"))?;
+                    let mut wc = ArchiveWriterConfig::new();
+                    wc.set_layers(layers_of(0));
+                    let mut w = ArchiveWriter::from_config(CountSink(0), wc).map_err(|e| format!("{e:?}"))?;
+                    fsr.convert_to_archive(&mut w).map_err(|e| format!("{e:?}"))?;
+                    Ok(4096)
+                }
+            });
+            meta[format!("peak_{op}")] = json!(peak);
+            match r {
+                Ok(n) if n == 4096 => {
+                    // repair holds its 8 MiB copy buffer; linear extraction a few KiB
+                    let ceiling = if op == "repair" { 12usize << 20 } else { 1 << 20 };
+                    if peak > ceiling {
+                        msg = Some(format!("{op} of an archive whose only file (4096 bytes) has id {id}: peak live heap {peak} bytes (ceiling {ceiling}): memory grows with the VALUE of a file id"));
+                    }
+                }
+                Ok(n) => msg = Some(format!("{op} of an archive whose file has id {id} delivered {n} bytes")),
+                Err(e) => msg = Some(format!("{op} of an archive whose file has id {id} failed: {e}")),
+            }
+        }
+        out.case(&Case {
+            id: format!("c15-bigid-{which}"),
+            model_fn: "",
+            args: vec![],
+            imp: json!([]),
+            oracle_ok: msg.is_none(),
+            oracle_msg: msg.unwrap_or_default(),
+            class: "large file id".into(),
+            nontrivial: true,
+            meta,
+        });
+    }
 }
